@@ -648,12 +648,6 @@ def _run_odimo(res, p, selftest):
             a = SymTensor.fresh(n.replace('.', '_'), tuple(q.alpha.shape))
             for v in a.elems():
                 ex.assume(v >= -4, v <= 4)
-            if ch0:
-                A_ = st.to_arr(a).reshape(a.shape[0], -1)
-                for c_ in range(A_.shape[1]):
-                    for i_ in range(A_.shape[0]):
-                        for j_ in range(i_ + 1, A_.shape[0]):
-                            ex.assume(z3.Or(A_[i_, c_] - A_[j_, c_] >= Fraction(1, 20), A_[j_, c_] - A_[i_, c_] >= Fraction(1, 20)))
             pairs.append((q, 'alpha', a))
             sy[n] = a
         with SymMode(), swapped_params(pairs):
